@@ -125,6 +125,12 @@ fn run_call(call: &Value) -> Outcome {
                 let text = std::fs::read(call["query"].as_str().unwrap_or(""))
                     .map(|b| String::from_utf8_lossy(&b).into_owned())
                     .unwrap_or_default();
+                // the same document, spelled with different surrounding whitespace
+                let text = match call["text_form"].as_str() {
+                    Some("trimmed") => text.trim().to_string(),
+                    Some("padded") => format!("\n   {}  \n\n", text),
+                    _ => text,
+                };
                 generate_module_token_stream_from_string(&text, &schema, opts)
             }
             _ => generate_module_token_stream(
